@@ -42,6 +42,9 @@ func c14Receivers() []c14Recv {
 		{"Number", "Single", &CTy{T: "int"}, tvF64(7)},
 		{"Number", "Array", list(&CTy{T: "float"}), tvSlice(1, tvF64(1.5), tvF64(2))},
 		{"Number", "Array", &CTy{T: "list", Open: 0, E: &CTy{T: "int"}}, tvSlice(1, tvF64(4))},
+		{"Number", "Array", list(&CTy{T: "number"}), tvSlice(1)}, // conforming data may be an empty list
+		{"String", "Array", list(&CTy{T: "string"}), tvSlice(1)},
+		{"Object", "Array", list(obj()), tvSlice(1)},
 		{"Any", "Single", &CTy{T: "top"}, tvStr("abc")},
 		{"Any", "Array", list(&CTy{T: "top"}), tvSlice(1, tvStr("a"), tvF64(1), tvBool(true))},
 	}
@@ -256,6 +259,9 @@ func genC14(c *Ctx) {
 				if strings.HasPrefix(cl.N, "Parse") {
 					dataDep = true // the text is not a document of that format
 				}
+			}
+			if strings.Contains(out.Msg, "nothing in array") {
+				dataDep = true // an empty list, or an index beyond its end
 			}
 			_ = last
 			if !dataDep {
